@@ -54,6 +54,9 @@ def judge_optimal(ctx, ev, ai, max_word=MAX_RESULT_WORD, min_word=0, check_inacc
         ctx.violation('format', '%s %s %s -> %s, growth rule gives %s' % (R.dtype_fxp(*fx), ai.op, R.dtype_fxp(*fy), R.dtype_fxp(*res.fmt()), R.dtype_fxp(*efmt)), ev)
         return True
     ex = A.exact_op(ai.op, A.fr_array(x), A.fr_array(y))
+    if A.beyond_double(ai, A.flat(ex)[0], A.fr_array(x), A.fr_array(y)):
+        ctx.skip('arith:value (repr) method on values beyond double precision (float arithmetic by definition; the properties are anchored in the integer kernels)')
+        return False
     exf, shape = A.flat(ex)
     if tuple(res.shape) != tuple(shape):
         ctx.violation('shape', 'result shape %r, broadcast shape %r' % (res.shape, shape), ev)
